@@ -73,7 +73,7 @@ def parse_type(s: str) -> TypeSpec:
     raise EngineError(f"bad type string {s!r}")
 
 
-def static_matches(ts: TypeSpec, v, repo=None) -> bool:
+def static_matches(ts: TypeSpec, v, repo=None, exact=False) -> bool:
     """Does the actual value v statically fit the type (rank, none-ness, class, list/tuple-ness)?"""
     from .values import is_boolv, is_intv, is_numv
     if ts.base == "any":
@@ -105,20 +105,26 @@ def static_matches(ts: TypeSpec, v, repo=None) -> bool:
             return False
         if ts.elem == "int" and v.kind == "real":
             return False
+        if exact and ts.elem != v.kind:
+            return False
         if ts.elem == "bool" and v.kind != "bool":
             return False
         for d, a in zip(ts.dims, v.shape):
-            if d.isdigit() and isinstance(a, int) and int(d) != a:
+            if d.strip().isdigit() and not (isinstance(a, int) and int(d) == a):
                 return False
         return True
     if ts.base == "list":
         return isinstance(v, Lst)
     if ts.base == "tuple":
-        return isinstance(v, tuple) and len(v) == len(ts.elem) and all(static_matches(t, x, repo) for t, x in zip(ts.elem, v))
+        return isinstance(v, tuple) and len(v) == len(ts.elem) and all(static_matches(t, x, repo, exact) for t, x in zip(ts.elem, v))
     if ts.base == "obj":
         if not isinstance(v, ObjRef):
             return False
+        want_abs = ts.cls.startswith("~")
+        cname = ts.cls.lstrip("~")
+        if want_abs != bool(getattr(v, "abstract", False)):
+            return False
         if repo is None:
-            return v.cls.name == ts.cls
-        return repo.is_subclass(v.cls, ts.cls)
+            return v.cls.name == cname
+        return repo.is_subclass(v.cls, cname)
     return False
